@@ -284,7 +284,9 @@ func (s *Spec) Step(ctx context.Context, st *State, pending interface{}, c *Cont
 		if err == nil {
 			bs = e.Bs
 		} else {
-			// Bind "actionError" to the error string.
+			// Bind "actionError" to the error string (in a
+			// copy: the given bindings are not ours to change).
+			bs = bs.Copy()
 			bs.Extend("actionError", err.Error())
 			bs.Extend("error", err.Error())
 			if !s.ActionErrorBranches {
@@ -347,10 +349,7 @@ func (s *Spec) Step(ctx context.Context, st *State, pending interface{}, c *Cont
 		// In a new major version, we should consider
 		// (re-)enforcing a default branch for action nodes
 		// (or moving back to the richer type system).
-		if bs == nil {
-			bs = NewBindings()
-		}
-		bs, _ = bs.Extendm("error", "Action node followed no branch",
+		bs, _ = bs.Copy().Extendm("error", "Action node followed no branch",
 			"lastNode", givenState.NodeName,
 			"lastBindings", givenState.Bs.Copy())
 		stride.To = &State{
@@ -662,7 +661,7 @@ func (s *Spec) Walk(ctx context.Context, st *State, pendings []interface{}, c *C
 			if st.NodeName == "error" {
 				// We're already at an error.
 			} else {
-				errorBs, _ := st.Bs.Extendm("error", err.Error(),
+				errorBs, _ := st.Bs.Copy().Extendm("error", err.Error(),
 					"lastNode", st.NodeName,
 					"lastBindings", st.Bs.Copy())
 				stride.To = &State{
